@@ -92,6 +92,14 @@ pub fn check_seq(seq: &[u8], k: usize) -> Verdict {
     let rc_text = model::revcomp_text(seq);
     let rev: Vec<(u64, u64)> = KmerGenerator::new(&rc_text, k).collect();
     v.nontrivial = fwd.len() >= 2 && rc_text != seq;
+    for t in [1usize, 3, 4, 7, 9, 12] {
+        let a = crate::util::Aligned::new(seq, t);
+        let g: Vec<(u64, u64)> = KmerGenerator::new(a.get(), k).collect();
+        if g != fwd {
+            v.fail("depends-on-address-alignment", format!("with the first byte at an address = {} mod 16 the iterator yields {} items, otherwise {} (k={})", t, g.len(), fwd.len(), k));
+            return v;
+        }
+    }
     v.class_if(seq.iter().any(|&b| !model::is_base(b)), "has-foreign");
     v.class_if(k >= 16, "k>=16");
     v.class_if(k % 2 == 1, "odd-k");
